@@ -29,7 +29,7 @@ TEXT = {
              '(protocol invariant over queue groups, word meanings and node ownership; WordSpecs at regenerated constants by bv_decide).',
         note=TRUST),
     'C02': dict(technique=WL,
-        text='c02_blocked_*: an agent whose acquisition/upgrade step cannot succeed coexists with a live conflicting holder; c02_solo_acquire; c02_quiescent_free_*: no holder => word free. '
+        text='c02_blocked_*: an agent whose acquisition/upgrade step cannot succeed coexists with a live conflicting holder; c02_solo_acquire; c02_quiescent_free_*: no holder => word free; c02_mcs_*: on MCSLock every failing wait condition has an unfinished request ahead in the queue as witness and the front of the queue passes. '
              'Fair termination wrapper on paper; dynamic: stuck detection under fair policies + final LockX probe on every lock (found F1, F3).',
         note=TRUST + 'Liveness under fairness is not a Lean theorem; MCS by correspondence + stuck monitor.'),
     'C03': dict(technique=WL,
@@ -62,12 +62,13 @@ TEXT = {
     'C10': dict(technique=WL,
         text='c10_no_other_sixx_*: during a SIX/X tenure no other SIX/X grant; c10_no_gap: conversions keep the grant; c10_upgrade_alone_*: upgrade granted only without S holders; c10_mcs from the MCS protocol invariant.',
         note=TRUST),
-    'C11': dict(technique='Lean 4 bit-level lemmas at regenerated MCS constants (bv_decide) + step-faithful executable MCS model tied by correspondence; FIFO monitor on every implementation trace',
-        text='c11_tail_word, c11_join_keeps_tail + MCS bit lemmas; arrival order itself is decided by the Lean fifo monitor over implementation events and the step-exact model. PARTIAL: no protocol theorem.',
-        note=TRUST + 'MCS protocol invariant not mechanised.'),
+    'C11': dict(technique='Lean 4 protocol invariant of the step-faithful MCS model => no overtaking in queue order; bit-level lemmas at regenerated constants (bv_decide); tie C: correspondence; FIFO monitor on every implementation trace',
+        text='c11_no_overtake: in every reachable state of the step-faithful MCS model no request holds a grant while a conflicting request ahead of it in the queue is unfinished; '
+             'c11_queue_is_arrival_order: the ghost queue is appended at the request\'s first write to the lock object and shrinks only at the front. Lean fifo monitor on implementation events.',
+        note=TRUST),
     'C12': dict(technique='Lean 4 protocol invariant of the step-faithful MCS model (node ownership => no access to freed nodes) + bit-level lemmas at regenerated constants (bv_decide); tie C: correspondence with node accounting; node monitor',
-        text='c12_mcs_no_use_after_free: no step of any reachable execution touches a freed node (node-ownership invariant); c12_unlockS_recycle_test etc.; leak-freedom / node bound by alloc/free accounting monitor (found F2). PARTIAL (second half).',
-        note=TRUST + 'Leak-freedom not yet a theorem.'),
+        text='c12_mcs_no_use_after_free, c12_mcs_live_nodes_accounted (every live node is a cached spare or the node of an unfinished request), c12_mcs_no_leak_at_quiescence — every reachable state; c12_unlockS_recycle_test etc.; alloc/free accounting monitor on implementation traces (found F2).',
+        note=TRUST),
     'C13': dict(technique=WL,
         text='c13_version_result (non-owning result read from a word without X), c13_shared_fallback / c13_cas_from_noX (owning result by CAS from a word with no X). Prepare monitor on traces.',
         note=TRUST),
